@@ -140,8 +140,27 @@ func (a artJ) toArtifact() pgs.Artifact {
 	case "err":
 		return pgs.GeneratorError{Message: a.Text.String()}
 	}
+	// artifacts the persister does not recognise although they look familiar: pointers to the known
+	// kinds and foreign types embedding one (all of them have ProtoFile) - and the bare stranger
+	switch a.K {
+	case "unknown-ptrfile":
+		return &pgs.GeneratorFile{Name: a.Name.String(), Contents: a.Text.String()}
+	case "unknown-ptrapp":
+		return &pgs.GeneratorAppend{FileName: a.Name.String(), Contents: a.Text.String()}
+	case "unknown-ptrinj":
+		return &pgs.GeneratorInjection{FileName: a.Name.String(), InsertionPoint: "pt", Contents: a.Text.String()}
+	case "unknown-embed":
+		return embedArtifact{pgs.GeneratorFile{Name: a.Name.String(), Contents: a.Text.String()}}
+	case "unknown-ptrcustom":
+		return &pgs.CustomFile{Name: a.Name.String(), Contents: a.Text.String(), Perms: 0644}
+	}
 	return weirdArtifact{}
 }
+
+type embedArtifact struct{ pgs.GeneratorFile }
+
+// unknownKinds: the spellings of "an artifact of no known kind" (the model reads them all as unknown)
+var unknownKinds = []string{"unknown", "unknown-ptrfile", "unknown-ptrapp", "unknown-ptrinj", "unknown-embed", "unknown-ptrcustom"}
 
 type artModule struct {
 	name string
@@ -473,6 +492,18 @@ func (e persistEngine) genC11p(g *Gen, emit func(persistIn)) {
 		emit(persistIn{Arts: []artJ{in2, f, a}})
 		// the name only on an append, after an ordinary file that already carries an append
 		emit(persistIn{Arts: []artJ{mkArt("file", "ok.go", "F"), mkArt("app", "ok.go", "+"), a}})
+		// the name on something that is not one of the six kinds (a pointer to one, a foreign type
+		// embedding one): never emitted, whatever the name
+		if i%8 == 0 {
+			uk := unknownKinds[1+(i/8)%(len(unknownKinds)-1)]
+			emit(persistIn{Arts: []artJ{mkArt("file", "ok.go", "F"), {K: uk, Name: toB(s), IP: B{}, Text: toB("U"), Perms: 0644}}})
+		}
+		// a sibling that differs in letter case only is a different file
+		if lo := strings.ToLower(s); lo != s {
+			fo := mkArt("file", s, "F")
+			fo.Ow = true
+			emit(persistIn{Arts: []artJ{mkArt("file", lo, "L"), fo, mkArt("app", s, "+"), mkArt("app", lo, "+l")}})
+		}
 	})
 }
 
@@ -486,7 +517,8 @@ func (e persistEngine) genC10(g *Gen, emit func(persistIn)) {
 		return a
 	}
 	alphabet := []artJ{mk("file", "a", "A", false), mk("file", "a", "A2", true), mk("file", "b", "B", false), mk("file", "./a", "A3", false),
-		mk("app", "a", "+a", false), mk("app", "b", "+b", false), mk("app", "d/../a", "+a2", false), mk("inj", "a", "ia", false), mk("err", "", "e1", false)}
+		mk("app", "a", "+a", false), mk("app", "b", "+b", false), mk("app", "d/../a", "+a2", false), mk("inj", "a", "ia", false), mk("err", "", "e1", false),
+		mk("file", "A", "UA", true), mk("app", "A", "+UA", false)} // names are compared byte for byte: "A" is not "a"
 	maxLen := 4
 	if g.Thorough() {
 		maxLen = 5
@@ -512,7 +544,7 @@ func (e persistEngine) genC10(g *Gen, emit func(persistIn)) {
 	}
 	rec(nil, maxLen)
 	// random sequences with templates, processors, illegal names, unknown artifacts
-	names := []string{"a", "b", "c.go", "./a", "d/../a", "d/a", "a/", "x/./y", "../a", "/abs", "", ".", "a/..", "..a", "a\\b"}
+	names := []string{"a", "b", "c.go", "./a", "d/../a", "d/a", "a/", "x/./y", "A", "C.go", "D/a", "d/A", "../a", "/abs", "", ".", "a/..", "..a", "a\\b"}
 	n := 4000
 	if g.Thorough() {
 		n = 80000
@@ -531,7 +563,7 @@ func (e persistEngine) genC10(g *Gen, emit func(persistIn)) {
 			if g.Rng.Intn(25) == 0 {
 				name = pick(g.Rng, names)
 			} else {
-				name = pick(g.Rng, names[:8])
+				name = pick(g.Rng, names[:12])
 			}
 			text := fmt.Sprintf("t%d", j)
 			if g.Rng.Intn(3) == 0 { // identical contents in different artifacts (a per-content cache must not mix them up)
@@ -554,13 +586,13 @@ func (e persistEngine) genC10(g *Gen, emit func(persistIn)) {
 				a = mk("inj", name, text, false)
 				a.IP = toB(pick(g.Rng, []string{"pt", "imports", ""}))
 			case r < 90:
-				a = mk("err", "", pick(g.Rng, []string{"e1", "boom", "", "a; b"}), false)
+				a = mk("err", "", pick(g.Rng, []string{"e1", "boom", "", "a; b", "100% sure", "%s and %d", "50%% off", "%!v(MISSING)"}), false)
 			case r < 98:
 				a = mk("custom", pick(g.Rng, []string{"out/x", "y", "out/./x"}), text, g.Rng.Intn(2) == 0)
 			default:
-				a = artJ{K: "unknown", Name: B{}, IP: B{}, Text: B{}}
+				a = artJ{K: pick(g.Rng, unknownKinds), Name: toB(pick(g.Rng, []string{"a", "b", "u.go"})), IP: B{}, Text: toB(text)}
 			}
-			if a.K != "err" && a.K != "unknown" && g.Rng.Intn(3) == 0 {
+			if a.K != "err" && !strings.HasPrefix(a.K, "unknown") && g.Rng.Intn(3) == 0 {
 				a.Tpl = true
 				a.Fails = g.Rng.Intn(30) == 0
 			}
@@ -665,6 +697,10 @@ func (e persistEngine) genC12(g *Gen, emit func(persistIn)) {
 			}
 			in.Procs = append(in.Procs, pj)
 		}
+		if g.Rng.Intn(8) == 0 { // the same run on a real directory tree (parents must be made on the configured file system)
+			in.FSKind = "os"
+		}
+		g.Count("fs", map[string]string{"": "memory", "os": "os-tempdir"}[in.FSKind])
 		g.Count("preexisting", fmt.Sprint(len(in.FS0)))
 		emit(in)
 	}
